@@ -146,6 +146,43 @@ def readCString (c : Codec) (a : BinArchive) (address : Nat) : Res (Option Str) 
   | .err e => .err e
   | .panic => .panic
 
+/-- `read_c_string` before decoding: the raw bytes up to the terminator. -/
+def readCStringRaw (a : BinArchive) (address : Nat) : Res (Option Bytes) :=
+  match readPointer a address with
+  | .ok (some ptr) =>
+    match validateAddress ptr a.size false with
+    | .ok () =>
+      match cstrBytes (a.data.drop ptr) with
+      | some b => .ok (some b)
+      | none => .err .Unterminated
+    | .err e => .err e
+    | .panic => .panic
+  | .ok none => .ok none
+  | .err e => .err e
+  | .panic => .panic
+
+/-! ### signed views (`read_i8/i16/i32`, `write_i8/i16/i32`): two's complement of the same cell -/
+
+/-- `x as iN` for an `N`-bit pattern `x`. -/
+def toSigned (bits n : Nat) : Int :=
+  if n < 2 ^ (bits - 1) then (n : Int) else (n : Int) - ((2 ^ bits : Nat) : Int)
+
+/-- `v as uN` (bit pattern of a signed or unsigned value). -/
+def ofSigned (bits : Nat) (v : Int) : Nat := (v % ((2 ^ bits : Nat) : Int)).toNat
+
+def readI8 (a : BinArchive) (address : Nat) : Res Int := (readU8 a address).map (toSigned 8)
+def readI16 (a : BinArchive) (address : Nat) : Res Int := (readU16 a address).map (toSigned 16)
+def readI32 (a : BinArchive) (address : Nat) : Res Int := (readU32 a address).map (toSigned 32)
+/-- `read_f32` as the `u32` bit pattern (M5). -/
+def readF32Bits (a : BinArchive) (address : Nat) : Res Nat := readUInt a address 4
+
+def writeI8 (a : BinArchive) (address : Nat) (v : Int) : Res BinArchive := writeU8 a address (ofSigned 8 v)
+def writeI16 (a : BinArchive) (address : Nat) (v : Int) : Res BinArchive := writeUInt a address 2 (ofSigned 16 v)
+def writeI32 (a : BinArchive) (address : Nat) (v : Int) : Res BinArchive := writeUInt a address 4 (ofSigned 32 v)
+def writeU16 (a : BinArchive) (address value : Nat) : Res BinArchive := writeUInt a address 2 value
+def writeU32 (a : BinArchive) (address value : Nat) : Res BinArchive := writeUInt a address 4 value
+def writeF32Bits (a : BinArchive) (address bits : Nat) : Res BinArchive := writeUInt a address 4 bits
+
 def deleteString (a : BinArchive) (address : Nat) : Res BinArchive :=
   match validateCell a address 4 with
   | .ok () => .ok { a with text := a.text.remove address }
@@ -318,13 +355,21 @@ def findLabelAddress (a : BinArchive) (target : Str) : Option Nat :=
 def allLabels (a : BinArchive) : List (Nat × Str) :=
   (a.labels.flatMap (fun p => p.2.map (fun l => (p.1, l)))).mergeSort (fun x y => x.1 ≤ y.1)
 
-/-! ### serialisation -/
-
-/-- Lexicographic `≤` on byte strings / on lists of them (Rust `Vec<u8>` / `Vec<String>` `cmp`). -/
+/-- Lexicographic `≤` on byte strings (Rust `Vec<u8>` / `String` `cmp`). -/
 def bytesLe : Bytes → Bytes → Bool
   | [], _ => true
   | _ :: _, [] => false
   | x :: xs, y :: ys => if x < y then true else if y < x then false else bytesLe xs ys
+
+/-- `pointer_destinations` (a `HashSet`: order immaterial, duplicates merged). -/
+def pointerDestinations (a : BinArchive) : List Nat := (a.pointers.map (·.2)).eraseDups
+
+/-- `get_labels`: all `(address, label)` pairs sorted lexicographically (address, then string bytes). -/
+def getLabels (a : BinArchive) : List (Nat × Str) :=
+  (a.labels.flatMap (fun p => p.2.map (fun l => (p.1, l)))).mergeSort
+    (fun x y => x.1 < y.1 || (x.1 == y.1 && bytesLe x.2 y.2))
+
+/-! ### serialisation -/
 
 def bucketCmpLe : List Str → List Str → Bool
   | [], _ => true
